@@ -261,6 +261,7 @@ def _pair(case):
         elif c.true("commonperp/type", type(cp) is L.Plucker and len(cp) == 1, "commonperp gave %r" % (cp,)):
             cw, cv = np.asarray(cp.w, dtype=float), np.asarray(cp.v, dtype=float)
             cu = refs.unit(cw)
+            c.eq("commonperp/constraint", float(np.dot(cv, cw)), 0.0, TOL * 10, max(1.0, float(np.dot(cw, cw))) * S / sinang)
             c.eq("commonperp/orthogonal1", float(np.dot(cu, u1)), 0.0, TOL)
             c.eq("commonperp/orthogonal2", float(np.dot(cu, u2)), 0.0, TOL)
             # feet of the true common perpendicular
